@@ -120,3 +120,63 @@ package signappx
 //@   loop 0 sig "for i, pkg := range bundle.Packages" invariant !bad
 //@   loop 1 sig "for _, zf := range files" invariant !bad
 //@   loop 2 sig "for name, unseen := range packages" invariant !bad
+//@
+//@ macro appxPatchKept(i *AppxDigest) bool = i.patchStart == old(i.patchStart) && i.patchLen == old(i.patchLen) && i.outz == old(i.outz) && \
+//@        (old(0 <= i.outz.DirLoc && i.outz.DirLoc <= 2305843009213693952) ==> 0 <= i.outz.DirLoc && i.outz.DirLoc <= 2305843009213693952)
+//@ extern (*AppxDigest).writeManifest(i, leaf)
+//@   ensures appxPatchKept(i)
+//@ extern (*AppxDigest).writeBlockMap(i)
+//@   ensures appxPatchKept(i)
+//@ extern (*AppxDigest).writeContentTypes(i)
+//@   ensures appxPatchKept(i)
+//@ extern (*AppxDigest).writeCodeIntegrity(i, ctx, cert, params)
+//@   ensures appxPatchKept(i)
+//@ extern (*AppxDigest).writeSignature(i, ctx, cert, params)
+//@   ensures appxPatchKept(i)
+//@
+//@ func (*AppxDigest).Sign
+//@   property C05 C03
+//@   standalone
+//@   requires cert != nil && i.outz != nil && 0 <= i.patchStart && 0 <= i.patchLen && i.patchStart <= 2305843009213693952 && i.patchLen <= 2305843009213693952
+//@   requires 0 <= i.outz.DirLoc && i.outz.DirLoc <= 2305843009213693952
+//@   ghost stage int = 0
+//@   before call (*AppxDigest).writeManifest(x, leaf): assert @manifest_first_with_the_signers_certificate_as_publisher x == i && leaf == cert.Leaf && stage == 0
+//@   on call (*AppxDigest).writeManifest(_, _) ret (e): stage = ite(e == nil, 1, -1)
+//@   before call (*AppxDigest).writeBlockMap(x): assert @block_map_after_the_manifest_it_has_to_list x == i && stage == 1
+//@   on call (*AppxDigest).writeBlockMap(_) ret (e): stage = ite(e == nil, 2, -1)
+//@   before call (*AppxDigest).writeContentTypes(x): assert @content_types_after_the_block_map x == i && stage == 2
+//@   on call (*AppxDigest).writeContentTypes(_) ret (e): stage = ite(e == nil, 3, -1)
+//@   before call (*AppxDigest).writeCodeIntegrity(x, _, c, p): assert @catalog_signed_with_the_callers_certificate x == i && c == cert && p == params && stage == 3
+//@   on call (*AppxDigest).writeCodeIntegrity(_, _, _, _) ret (s, e): stage = ite(e == nil, 4, -1)
+//@   before call (*AppxDigest).writeSignature(x, _, c, p): assert @package_signature_last_over_everything_written_before x == i && c == cert && p == params && stage == 4
+//@   on call (*AppxDigest).writeSignature(_, _, _, _) ret (s, e): stage = ite(e == nil, 5, -1)
+//@   before call (*zipslicer.Directory).WriteDirectory(d, w1, w2, f): assert @directory_follows_the_new_members_in_the_same_patch_buffer stage == 5 && d == i.outz && w1 == iface(addr(i.patchBuf)) && w2 == iface(addr(i.patchBuf))
+//@   on call (*zipslicer.Directory).WriteDirectory(_, _, _, _) ret (e): stage = ite(e == nil, 6, -1)
+//@   before call (*binpatch.PatchSet).Add(_, off, sz, blob): assert @the_tail_from_the_first_rewritten_member_is_replaced stage == 6 && off == i.patchStart && sz == i.patchLen
+//@   ensures @a_patch_only_after_every_part_was_written err == nil ==> stage == 6
+//@
+//@ func (*AppxDigest).writeSignature
+//@   property C05
+//@   standalone
+//@   requires i.outz != nil && i.axpc != nil && 0 <= i.outz.DirLoc && i.outz.DirLoc <= 2305843009213693952 && 1 <= i.Hash && i.Hash <= 19
+//@   ghost tagN int = 0
+//@   ghost lastTag string = ""
+//@   ghost pcG []byte = nil
+//@   ghost cdG []byte = nil
+//@   ghost cdDone bool = false
+//@   ghost bodyG []byte = nil
+//@   ghost tsG *pkcs9.TimestampedSignature = nil
+//@   before call (*zipslicer.Directory).WriteDirectory(d, w1, w2, f): assert @directory_digest_covers_directory_and_end_records_of_the_new_archive d == i.outz && w1 == iface(axcd) && w2 == iface(axcd) && f
+//@   on call (*zipslicer.Directory).WriteDirectory(_, _, _, _) ret (e): cdDone = (e == nil)
+//@   on call invoke hash.Hash.Sum(h, _) ret (r): pcG = ite(h == i.axpc, r, pcG); cdG = ite(h == axcd, r, cdG)
+//@   before call (*bytes.Buffer).WriteString(b, t): assert @tags_in_the_order_the_format_prescribes b == digest && (tagN == 0 ==> t == "APPX") && (tagN == 1 ==> t == "AXPC") && \
+//@        (tagN == 2 ==> t == "AXCD") && (tagN == 3 ==> t == "AXCT") && (tagN == 4 ==> t == "AXBM") && (tagN == 5 ==> t == "AXCI" && len(i.axci) != 0) && tagN <= 5
+//@   on call (*bytes.Buffer).WriteString(_, t) ret (n, e): tagN = tagN + 1; lastTag = t
+//@   before call (*bytes.Buffer).Write(b, p): assert @each_tag_is_followed_by_its_own_digest b == digest && cdDone && (lastTag == "AXPC" ==> sameslice(p, pcG)) && (lastTag == "AXCD" ==> sameslice(p, cdG)) && \
+//@        (lastTag == "AXCT" ==> sameslice(p, i.axct)) && (lastTag == "AXBM" ==> sameslice(p, i.axbm)) && (lastTag == "AXCI" ==> sameslice(p, i.axci)) && tagN >= 2
+//@   on call (*bytes.Buffer).Write(_, _) ret (n, e): lastTag = ""
+//@   on call (*bytes.Buffer).Bytes(b) ret (r): bodyG = ite(b == digest, r, bodyG)
+//@   before call authenticode.SignSip(_, imp, h, sip, c, p): assert @the_digest_blob_is_signed_under_the_appx_sip_with_the_callers_certificate sameslice(imp, bodyG) && h == i.Hash && c == cert && p == params && \
+//@        tagN >= 5 && lastTag == "" && sip == appxSipInfo
+//@   on call authenticode.SignSip(_, _, _, _, _, _) ret (t, e): tsG = ite(e == nil, t, nil)
+//@   before call (*AppxDigest).addZipEntry(x, name, blob): assert @signature_member_is_the_marker_followed_by_the_new_signature x == i && name == appxSignature && tsG != nil && len(blob) == 4 + len(tsG.Raw)
